@@ -78,8 +78,12 @@ def gen_case_pair(seed):
     src = SeedSource(seed)
     c = gen_case(src.pick(range(2**30)))
     # rules whose patterns constrain the third nesting level and deeper live in the Gaussian / Integrate / Finitary families
-    for _ in range(6):
-        if c["family"] in ("gauss_int", "gauss_chain", "shaped") or src.pick([0, 0, 1]):
+    want_integrand = src.pick([0, 1]) == 1  # half of the pairs: an Integrate whose integrand is a sum / transformed Gaussian
+    for _ in range(12):
+        if want_integrand:
+            if c["family"] == "gauss_int" and c["ast"][0] == "integrate" and c["ast"][2][0] in ("bin", "un"):
+                break
+        elif c["family"] in ("gauss_int", "gauss_chain", "shaped") or src.pick([0, 0, 1]):
             break
         c = gen_case(src.pick(range(2**30)))
     if c["family"] in ("delta",):
@@ -322,6 +326,11 @@ def compare_firing(lhs_ast, rhs_ast, nonneg):
         return ("changes-shape", f"replacement has output shape {rout[1]}, original {out[1]}")
     if npoints(inputs) > 1500:
         raise Undecided("too many points")
+    from vf.lang import walk as _walk
+
+    if any(n_[0] == "ten" and n_[3] == "real" and any(v_ == float("inf") for v_ in n_[4]) for n_ in _walk(lhs_ast)):
+        # +inf entries (e.g. minus a point mass) are outside the carrier of the log-space rules (inf - inf inside the shift trick)
+        raise OutOfDomain("+inf data")
     o1, o2 = Oracle(), Oracle()
     n = 0
     from vf.lang import delta_hit_points
